@@ -121,20 +121,49 @@ def r1(ctx: Ctx) -> None:
         t = kw(fc, name)
         got[name] = short(t)
     ok = True
-    binder: Optional[str] = None
-    for name, pos in want.items():
-        t = kw(fc, name)
-        if t is None or t[0] != "sub" or t[1][0] != "bound" or t[2] != ("const", pos):
-            ok = False
-        else:
-            binder = t[1][1] if binder in (None, t[1][1]) else "?"
+    how = "?"
     mapped_over = None
-    for e in calls(w.main, into_loops=False):
-        if e.name == "map" and len(e.args) == 2 and e.args[0][0] == "lambda":
-            mapped_over = e.args[1]
-    ok = ok and binder not in (None, "?") and mapped_over == w.pending_sym and "lambda" in fc.ctx
+    if "lambda" in fc.ctx:
+        how = "map(lambda)"
+        binder: Optional[str] = None
+        for name, pos in want.items():
+            t = kw(fc, name)
+            if t is None or t[0] != "sub" or t[1][0] != "bound" or t[2] != ("const", pos):
+                ok = False
+            else:
+                binder = t[1][1] if binder in (None, t[1][1]) else "?"
+        for e in calls(w.main, into_loops=False):
+            if e.name == "map" and len(e.args) == 2 and e.args[0][0] == "lambda":
+                mapped_over = e.args[1]
+        ok = ok and binder not in (None, "?")
+    elif "comp" in fc.ctx:
+        how = "comprehension"
+        # [self._execute_orders(..., volume=v, buy_order=b, sell_order=s) for v, b, s in pending]
+        comp = None
+        for e in w.main.walk_events(False):
+            for t in ([e.term] if e.kind == "call" else []) + ([e.value] if e.kind == "store" else []):
+                for s_ in subterms(t):
+                    if s_[0] == "comp" and strip_ver(s_[2]) == strip_ver(fc.term):
+                        comp = s_
+        for v in list(w.main.env.values()) + ([w.main.exit[1]] if w.main.exit[0] == "return" else []):
+            for s_ in subterms(v):
+                if s_[0] == "comp" and strip_ver(s_[2]) == strip_ver(fc.term):
+                    comp = s_
+        ok = comp is not None and len(comp[3]) == 1 and not comp[3][0][2]
+        if ok:
+            names = comp[3][0][0]
+            mapped_over = comp[3][0][1]
+            if len(names) == 3:
+                ok = all(kw(fc, n_) == ("bound", names[pos]) for n_, pos in want.items())
+            elif len(names) == 1:
+                ok = all(kw(fc, n_) == ("sub", ("bound", names[0]), ("const", pos)) for n_, pos in want.items())
+            else:
+                ok = False
+    else:
+        ok = False
+    ok = ok and mapped_over == w.pending_sym
     ctx.check(ok, f, fc.node, "fills are executed for every pending tuple with (volume, buy_order, sell_order) = elements 0, 1, 2",
-              "map(lambda x: _execute_orders(price=p, volume=x[0], buy_order=x[1], sell_order=x[2]), pending)", f"{got}, mapped over {short(mapped_over)}")
+              "_execute_orders(price=p, volume=x[0], buy_order=x[1], sell_order=x[2]) for every x of the pending list", f"{how}: {got}, over {short(mapped_over)}")
     # OrderBook.add rejects the wrong side before insertion; _add_order rejects a foreign market before add
     _guard_before(ctx, "OrderBook.add", lambda e: e.kind == "call" and e.name == "heappush",
                   lambda c: _is_cmp(c, "order.is_buy", "self.is_buy"), "side test (order.is_buy vs self.is_buy)")
